@@ -300,6 +300,26 @@ def check_function_tag(datapack: DataPack, json_path: str, registered: str) -> N
     raise JMCSyntaxException(message, token, tokenizer, suggestion=suggestion)
 
 
+def check_resource_paths(datapack: DataPack) -> None:
+    """
+    Every function / JSON file is written to `data/<namespace>/<folder>/<resource path>`. A resource path with an empty,
+    `.` or `..` segment (a generated name taken from a string argument, `Predicate.locations(name="../../x", ...)`,
+    or from jmc.txt) would be written outside of that folder
+
+    :param datapack: DataPack object
+    :raises JMCBuildError: A resource path leaves its folder
+    """
+    for kind, resources in (("Function", datapack.functions), ("JSON", datapack.jsons)):
+        for resource_path in resources:
+            if any(
+                segment in {"", ".", ".."} or "\\" in segment
+                for segment in resource_path.split("/")
+            ):
+                raise JMCBuildError(
+                    f"{kind}({resource_path}) is not a valid resource path: it has an empty, '.' or '..' segment and would be written outside of its folder"
+                )
+
+
 def build(
     datapack: DataPack,
     config: "Configuration",
@@ -326,6 +346,7 @@ def build(
 
     logger.debug(f"Building (_is_virtual={_is_virtual})")
     datapack.build()
+    check_resource_paths(datapack)
     check_function_tag(
         datapack,
         f"minecraft/tags/{function_folder}/load",
